@@ -391,3 +391,36 @@ def validate_trace(module, cfg, records, *, scratch, max_rejects=40, timeout=600
         if len(rejected) >= max_rejects:
             break
     return len(runs), rejected, {"states": states, "rounds": rounds}
+
+
+def eval_obs(module, cfg, records, *, scratch, max_fail=25, timeout=900, chunk=4000):
+    """Evaluate a trace spec whose states are independent observation records
+    (one per line; variable `l` = index).  Returns (n_ok, failures, states)
+    where failures = [(record, invariant)]."""
+    failures = []
+    states = 0
+    n_ok = 0
+    for base in range(0, len(records), chunk):
+        part = list(records[base:base + chunk])
+        rounds = 0
+        while part:
+            rounds += 1
+            path = Path(scratch) / f"obs-{module}-{base}-{rounds}.ndjson"
+            write_ndjson(path, part)
+            res = tlc(module, cfg, workers=1, timeout=timeout, env={"TRACE": str(path)})
+            states += res.distinct
+            if res.ok:
+                n_ok += len(part)
+                break
+            m = re.search(r"Invariant (\w+) is violated", res.raw)
+            ls = re.findall(r"^/?\\?\s*l = (\d+)", res.raw, re.M) or \
+                re.findall(r"l = (\d+)", res.raw)
+            if not m or not ls:
+                raise ToolError(f"{module}: cannot interpret TLC output:\n{res.raw[-3000:]}")
+            at = int(ls[-1])
+            failures.append((part[at - 1], m.group(1)))
+            n_ok += at - 1
+            part = part[at:]
+            if len(failures) >= max_fail:
+                return n_ok, failures, states
+    return n_ok, failures, states
